@@ -198,6 +198,34 @@ Definition check_state (pre : string) (lenient : bool) (m : utree) (so : sexp) :
   | _, _ => inl (VBad (pre ++ "undecodable state"))
   end.
 
+(** oracle only (no model of the step): the dump, and the writer model on the dump *)
+Definition check_state_unmodelled (pre : string) (so : sexp) : verdict + (utree * bool) :=
+  match get_tree "tree" so, get_string "nw" so with
+  | Some g, Some nw =>
+    match structure_ok so g with
+    | Some msg => inl (VOracle (pre ++ msg))
+    | None =>
+      match text_ok g nw with
+      | inr msg => inl (VOracle (pre ++ msg))
+      | inl checked =>
+        if String.eqb (writeC g) nw then inr (g, checked)
+        else inl (VCorr (pre ++ "text, model: " ++ writeC g ++ " implementation: " ++ nw))
+      end
+    end
+  | _, _ => inl (VBad (pre ++ "undecodable state"))
+  end.
+
+(** Model/Outgroup.v covers the trees whose root has at least two neighbours and which UnRoot
+    does not root at a tip (a rooted tree must have an inner node next to its root): on the
+    others RerootOutGroup / RerootMidPoint (and CollapseTopoDepth on a tree whose root has a
+    single neighbour) are judged by the oracle alone and the history goes
+    on from the dumped tree *)
+Definition unmodelled (name : string) (t : utree) : bool :=
+  ((String.eqb name "outgroup" || String.eqb name "midpoint") &&
+   (Nat.ltb (degree t) 2 || (rooted t && negb (existsb (fun p => negb (is_tip (snd p))) (kids t))))) ||
+  (* Model/Collapse.v: subtree sizes of a tree whose root is itself a tip *)
+  (String.eqb name "collapse_depth" && Nat.ltb (degree t) 2).
+
 (** * the fold over the steps *)
 Definition nw_tag (nin nstates : nat) : string :=
   if Nat.eqb nin nstates then ":nw-all" else if Nat.eqb nin 0 then ":nw-none" else ":nw-part".
@@ -258,6 +286,12 @@ Fixpoint walk (o : sexp) (i : nat) (t : utree) (origs : list utree) (nin nstates
             let gstage := match get_string "stage" so with Some s => s | None => "" end in
             let refused := negb (String.eqb gerr "") in
             if negb re && needs_index name then VBad (pre ++ "this operation is only modelled right after ReinitIndexes")
+            else if unmodelled name t && negb (refused && String.eqb gstage "reinit") then
+              if refused then stopped ("stop@" ++ name ++ ":unmodelled")
+              else match check_state_unmodelled (pre ++ "(outside the model of this operation) ") so with
+                   | inl v => v
+                   | inr (g, b) => walk o (S i) g origs (nin + b2n b) (nstates + 1) ops' steps'
+                   end
             else
             match (if re then reinit t else Ok tt) with
             | Err m =>
